@@ -140,7 +140,10 @@ def handleLine {σ : Type} (sys : Sys σ) (r : Run σ) (lineNo : Nat) (line : St
           | some msg => r ← report r lineNo "imp" s!"`{op} {args}` on {sys.show_ pre}: {msg}" op
           | none => pure ()
           if res' != "?" && res'.trimAscii.toString != res.trimAscii.toString then
-            r ← report r lineNo "result" s!"`{op} {args}` on {sys.show_ pre}: implementation {res}, model {res'}" op
+            -- an insertion that succeeded on both sides but returned a different record index is a matter of
+            -- the format (kind `slot`), not of the map/set behaviour (kind `result`)
+            let kind := if op == "ins" && res.trimAscii.toString.startsWith "some " && res'.startsWith "some " then "slot" else "result"
+            r ← report r lineNo kind s!"`{op} {args}` on {sys.show_ pre}: implementation {res}, model {res'}" op
           -- trace
           let tr := trace.trimAscii.toString
           if tr != "" then
